@@ -58,6 +58,7 @@ class Gen:
     def __init__(self, rng):
         self.rng = rng
         self.k = 0
+        self.used = [set()]     # names of the i18n:name children of the translation being built (unique per translation only)
 
     def text(self):
         r = self.rng
@@ -67,7 +68,9 @@ class Gen:
         """-> (source, node) node: dict(kind='name', name, ...)"""
         r = self.rng
         self.k += 1
-        name = 'n%d' % self.k
+        # a nested translation may reuse the names of the one around it
+        name = r.choice([x for x in ('a', 'b', 'n%d' % self.k, 'n%d' % self.k) if x not in self.used[-1]])
+        self.used[-1].add(name)
         tag = r.choice(['b', 'i', 'em'])
         wrap = r.choice(['plain', 'plain', 'cond-true', 'cond-false', 'repeat', 'omit', 'content'])
         inner_src, inner = self.body_parts(settings, depth - 1, allow_names=False, n=r.randint(1, 2))
@@ -144,7 +147,9 @@ class Gen:
         if translate:
             msgid = r.choice([None, None, 'msg-%d' % r.randint(1, 3)])
             attrs += ' i18n:translate="%s"' % (msgid or '')
+            self.used.append(set())
             src, nodes = self.body_parts(st, depth, allow_names=True, n=r.randint(0, 4))
+            self.used.pop()
         else:
             src, nodes = [], []
             parts = []
@@ -556,7 +561,34 @@ D10A_EXPECT = '<div><p>E</p><i>[m|None|None|None]</i></div>'
 D10A_ACTUAL = '<div><p>E</p><i>[m|leak|None|None]</i></div>'
 
 
+D10B = ('<m metal:define-macro="m"><s metal:define-slot="s">d</s></m>|<div metal:use-macro="template.macros[\'m\']" i18n:domain="outer">'
+        '<span metal:fill-slot="s" i18n:domain="inner"><b i18n:translate="">hello</b><i tal:content="m"/></span></div>')
+D10C = '<p i18n:translate=""><b i18n:name="a-b">one</b> and <b i18n:name="a_b">two</b></p>'
+
+
 def reproduce_finding(ctx, f):
+    from chameleon import PageTemplate
+    if f['id'] == 'D-10b':
+        calls = []
+
+        class O:
+            def __str__(self):
+                return 'obj'
+
+        def tr(msgid, domain=None, mapping=None, context=None, target_language=None, default=None):
+            calls.append((type(msgid).__name__, domain))
+            return msgid if default is None else default
+        PageTemplate(D10B, translate=tr)(m=O())
+        # the property: both calls carry the filler's own domain
+        return calls == [('str', 'inner'), ('O', 'outer')]
+    if f['id'] == 'D-10c':
+        maps = []
+
+        def tr2(msgid, domain=None, mapping=None, context=None, target_language=None, default=None):
+            maps.append(dict(mapping or {}))
+            return default or msgid
+        PageTemplate(D10C, translate=tr2)()
+        return maps == [{'a-b': '<b>two</b>', 'a_b': '<b>two</b>'}]
     return None
 
 
